@@ -183,6 +183,24 @@ def run_grid(case):
     d = util.scratch("c12")
     h = np.array([[30.0 + 7 * i + 13 * j + 40 * ((i * j) % 3) for i in range(5)] for j in range(4)])
     hc = 20.0
+    # sdepth on 2-D bathymetry given as a transposed view / Fortran-ordered array / strided view: same columns as the C-ordered copy
+    from ladim.ROMS import s_stretch as _ss, sdepth as _sd
+
+    Cr_ = _ss(N, 3.0, 0.4 if Vs == 1 else 1.5, stagger="rho", Vstretching=Vs)
+    Cw_ = _ss(N, 3.0, 0.4 if Vs == 1 else 1.5, stagger="w", Vstretching=Vs)
+    for name_, H2 in (("transposed", h.T), ("fortran", np.asfortranarray(h)), ("strided", h[::2, ::-1])):
+        try:
+            a = _sd(H2, hc, Cw_, stagger="w", Vtransform=Vt)
+            b = _sd(np.ascontiguousarray(H2), hc, Cw_, stagger="w", Vtransform=Vt)
+            r_ = _sd(H2, hc, Cr_, stagger="rho", Vtransform=Vt)
+        except Exception as e:
+            bad("levels:exception", f"sdepth on a {name_} bathymetry array: {e!r}")
+            continue
+        n += 1
+        if a.shape != (N + 1, *H2.shape) or not np.array_equal(a, b) or np.abs(a[0] + H2).max() > 1e-9 * H2.max() or np.abs(a[-1]).max() > 1e-9 * H2.max():
+            bad("levels:memory-layout", f"sdepth on a {name_} bathymetry array (N={N} Vt={Vt}): z_w[0] != -h or differs from the result for the C-ordered copy")
+        elif (r_ < -H2 - 1e-9 * H2.max()).any() or (r_ > 1e-9).any():
+            bad("levels:memory-layout", f"sdepth on a {name_} bathymetry array: rho-levels outside [-h, 0]")
     for ths, thb in [(1.0, 0.5), (5.0, 0.1 if Vs == 1 else 2.0), (7.0, 1.0)]:
         w = world.World(imax=5, jmax=4, N=N, h=h, hc=hc, theta_s=ths, theta_b=thb, Vtransform=Vt, Vstretching=Vs)
         f = w.write_file(d / f"g_{ths}.nc", [dict(t=0, **w.zeros())])
